@@ -6,7 +6,7 @@ import builtins
 import inspect
 
 from engine.defuse import value_sources
-from engine.flow import falls_through, path_avoiding, reachable_from_entry, returns_of
+from engine.flow import dominating_guards, falls_through, path_avoiding, reachable_from_entry, returns_of, same_name_value
 from engine.types import FnTypes
 from . import c01
 from .common import STATE, MUTATING_METHODS
@@ -49,6 +49,30 @@ def arity(fn):
     required = len(pos) - min(nd, len(pos))
     maximal = 10 ** 6 if a.vararg else len(pos)
     return required, maximal, a.kwarg is not None
+
+
+def setdefault_spelled_out(an, f, r):
+    """`if k in self: return self[k]` / `super().__setitem__(k, v); return v` -- what dict.setdefault does, written out"""
+    v = r.ast.value
+    guards = dominating_guards(an, f, r)
+    present = [t for t, tr in guards if isinstance(t.ast, ast.Compare) and len(t.ast.ops) == 1 and isinstance(t.ast.comparators[0], ast.Name)
+               and t.ast.comparators[0].id == f.self_name and ((isinstance(t.ast.ops[0], ast.In) and tr) or (isinstance(t.ast.ops[0], ast.NotIn) and not tr))]
+    absent = [t for t, tr in guards if isinstance(t.ast, ast.Compare) and len(t.ast.ops) == 1 and isinstance(t.ast.comparators[0], ast.Name)
+              and t.ast.comparators[0].id == f.self_name and ((isinstance(t.ast.ops[0], ast.In) and not tr) or (isinstance(t.ast.ops[0], ast.NotIn) and tr))]
+    if present:
+        k = present[0].ast.left
+        if isinstance(v, ast.Subscript) and isinstance(v.value, ast.Name) and v.value.id == f.self_name and ast.unparse(v.slice) == ast.unparse(k):
+            return True
+        if isinstance(v, ast.Call) and isinstance(v.func, ast.Attribute) and v.func.attr in ("get", "__getitem__") and v.args and ast.unparse(v.args[0]) == ast.unparse(k):
+            return True
+        return False
+    if absent:
+        k = absent[0].ast.left
+        g = an.cfg(f)
+        stores = [m for m in g.nodes if m.kind == "call" and isinstance(m.ast.func, ast.Attribute) and m.ast.func.attr == "__setitem__"
+                  and FnTypes.is_super_call(m.ast.func) and len(m.ast.args) == 2 and ast.unparse(m.ast.args[0]) == ast.unparse(k)]
+        return any(isinstance(v, ast.Name) and isinstance(m.ast.args[1], ast.Name) and same_name_value(f, v, r, m.ast.args[1], m) for m in stores)
+    return False
 
 
 def check(ctx):
@@ -102,6 +126,9 @@ def check(ctx):
                 for r in rets:
                     srcs = value_sources(f, r.ast.value, r) if r.ast.value is not None else []
                     good = bool(srcs) and all(k == "expr" and isinstance(pl, ast.Call) and FnTypes.is_super_call(pl.func) and pl.func.attr == name for k, pl in srcs)
+                    if not good and name == "setdefault":
+                        # setdefault spelled out: the held value when the key is present, else store and hand back the new value
+                        good = setdefault_spelled_out(an, f, r)
                     okr = okr and good
                 ctx.ob("result.delegate", f, "%s.%s returns what %s.%s returns" % (c.name, name, base, name), okr,
                        "the builtin's result is handed back" if okr else
@@ -121,7 +148,14 @@ def check(ctx):
 
                 def cut_empty(a, b, lbl):
                     # `if iterable:` -- nothing to insert
-                    return not (a.kind == "test" and isinstance(a.ast, ast.Name) and a.ast.id in params and lbl is False)
+                    if a.kind == "test" and isinstance(a.ast, ast.Name) and a.ast.id in params and lbl is False:
+                        return False
+                    # setdefault: the key is already there -- the builtin changes nothing either
+                    if name == "setdefault" and a.kind == "test" and isinstance(a.ast, ast.Compare) and len(a.ast.ops) == 1 \
+                            and isinstance(a.ast.comparators[0], ast.Name) and a.ast.comparators[0].id == f.self_name:
+                        if (isinstance(a.ast.ops[0], ast.In) and lbl is True) or (isinstance(a.ast.ops[0], ast.NotIn) and lbl is False):
+                            return False
+                    return True
 
                 def cut_loop_exit(a, b, lbl):
                     return True
